@@ -9,7 +9,9 @@ for _vo in ("theories/Interp/Io.vo", "theories/Interp/IoRun.vo"):
 THEOREMS = ["C19_fail_safe", "C19_create_failure_reported", "C19_ok_is_complete", "C19_no_fault_ok",
             "C19_prefix_safety", "C19_failed_output", "C19_report_point", "C19_report_point_first",
             "C19_pushed_sizes_total", "C19_never_out_of_fuel", "C19_old_protocol_small_always_ok",
-            "C19_old_protocol_claims_success", "C19_old_protocol_panics"]
+            "C19_old_protocol_claims_success", "C19_old_protocol_panics",
+            "C19_pipeline_is_replay", "C19_pipeline_is_session", "C19_pipeline_ok_complete", "C19_pipeline_fail_safe",
+            "C19_pipeline_panics_only_without_fault", "C19_pipeline_unreadable_input", "C19_trace_is_run_src"]
 MODELS = ("io",)
 RULE = ("programs of varied output size -- tiny (everything stays in BufWriter's 8192-byte buffer until the final flush), "
         "medium, several multiples of 8192, single records larger than the buffer (large payloads through io::file), "
@@ -52,10 +54,11 @@ PRE = "import ipv4;\nimport io;\nimport std;\nimport text;\n"
 # ---------------------------------------------------------------- programs
 
 class Prog:
-    __slots__ = ("name", "kind", "src", "files", "total", "status", "base", "bounds", "mbase")
+    __slots__ = ("name", "kind", "src", "files", "total", "status", "base", "bounds", "dense")
 
     def __init__(self, name, kind, src, files=None):
         self.name, self.kind, self.files = name, kind, files or {}
+        self.dense = True          # every offset when the output is below the tier's threshold
         self.src = src if isinstance(src, bytes) else src.encode("utf-8")
 
 
@@ -95,7 +98,7 @@ def tcp_prog(name, sizes, datadir, rng):
 
 def frag_prog(name, plen, step, datadir, rng):
     files = {}
-    lines = [PRE, "let g = ipv4::frag(1.2.3.4, 5.6.7.8, %s, id: 7, proto: 17);\n" % payload_expr(plen, files, datadir, rng)]
+    lines = [PRE, "let g = ipv4::frag(1.2.3.4, 5.6.7.8, id: 7, proto: 17, %s);\n" % payload_expr(plen, files, datadir, rng)]
     off = 0
     blocks = (plen + 7) // 8
     while off + step < blocks:
@@ -167,6 +170,7 @@ def make_programs(ctx, datadir):
     # medium / several multiples of the buffer
     for i in range(8 if t else 1):
         P.append(random_prog("med%d" % i, r, "medium-random", r.randint(60, 120) if t else 45, 300, 0.0))
+        P[-1].dense = i < 4
     P.append(sized_prog("multi8k", "multiples-of-8192", [r.choice([400, 1000, 1500, 2048, 4096]) for _ in range(30 if t else 14)],
                         datadir, r))
     for i in range(4 if t else 1):
@@ -186,6 +190,9 @@ def make_programs(ctx, datadir):
         seqs = [seqs[i] for i in (0, 1, 2, 8, 9, 10, 15, 16, 22)]
     for i, s in enumerate(seqs):
         P.append(sized_prog("bnd%d" % i, "buffer-boundary", s, datadir, r))
+        # thorough: every offset for the sequences that end exactly on the boundary and fit 9000 bytes
+        P[-1].dense = (not t) or (24 + sum(s) <= 9000 and (24 + sum(s[:-1] if len(s) > 1 else s)) % CAP in (0, 1, CAP - 1)
+                                  and i % 3 == 1) or 24 + sum(s) < 1000
     # programs that fail for another reason after emitting packets
     k = 0
     for which in range(len(FAIL_TAILS)):
@@ -194,6 +201,7 @@ def make_programs(ctx, datadir):
             shapes.append(([5000, 5000, 300], (400, 9000)))
         for before, after in shapes:
             P.append(failing_prog("late%d" % k, before, which, datadir, r, after))
+            P[-1].dense = (not t) or not after or which in (0, 5)
             k += 1
     return P
 
@@ -317,7 +325,7 @@ def model_cases(cases, xcheck=0):
     blocks = []
     for cid, keep, create, inp, files, limits in cases:
         ls = [("none" if l is None else str(l)) for l in limits]
-        for i in range(0, len(ls), 400):
+        for i in range(0, len(ls), 120):
             b = ["CASE %s" % cid]
             for pth, content in files.items():
                 b.append("FILE %s %s" % (pth.encode().hex(), content.hex() or "-"))
@@ -330,7 +338,7 @@ def model_cases(cases, xcheck=0):
                 b.append("INPUT unreadable")
             else:
                 b.append("INPUT src %s" % (inp.hex() or "-"))
-            b += ["LIMITS " + ",".join(ls[i:i + 400]), "END"]
+            b += ["LIMITS " + ",".join(ls[i:i + 120]), "END"]
             blocks.append("\n".join(b) + "\n")
     d = os.path.join(common.BUILD, "work")
     os.makedirs(d, exist_ok=True)
@@ -340,12 +348,18 @@ def model_cases(cases, xcheck=0):
         pth = os.path.join(d, "c19-%d-%d.cases" % (os.getpid(), i))
         with open(pth, "w") as f:
             f.write("".join(blocks[i::shards]))
-        procs.append((pth, subprocess.Popen([common.model_bin("io"), "faults", pth], stdout=subprocess.PIPE,
-                                            stderr=subprocess.PIPE)))
+        # answers go to a file: with pipes the drivers would block on a full pipe until their turn to be read
+        outf = open(pth + ".out", "wb")
+        procs.append((pth, outf, subprocess.Popen([common.model_bin("io"), "faults", pth], stdout=outf,
+                                                  stderr=subprocess.PIPE)))
     out = {}
-    for pth, pr in procs:
-        so, se = pr.communicate(timeout=3000)
+    for pth, outf, pr in procs:
+        _, se = pr.communicate(timeout=3000)
+        outf.close()
+        with open(pth + ".out", "rb") as f:
+            so = f.read()
         os.unlink(pth)
+        os.unlink(pth + ".out")
         if pr.returncode != 0:
             raise common.BuildError("model driver rsmodel_io failed: " + se.decode()[-2000:])
         for l in so.decode().splitlines():
@@ -369,7 +383,7 @@ def model_status(m):
 
 def choose_offsets(ctx, p, full_upto, nrandom, radius=40):
     total = len(p.base)
-    if total <= full_upto:
+    if total <= full_upto and p.dense:
         offs = set(range(0, total + 1))
     else:
         offs = set(range(0, min(total, 65) + 1))
@@ -690,7 +704,7 @@ def run(ctx):
         if p.status.startswith("PANIC") or p.status == "NOTHING":
             ctx.fail("panic-without-fault", "%s: %s" % (p.name, p.status), replay_dict(p, None, True))
     # offsets
-    full_upto = 40000 if ctx.thorough else 2600
+    full_upto = 20000 if ctx.thorough else 2600
     nrandom = 400 if ctx.thorough else 30
     radius = 40 if ctx.thorough else 20
     jobs, mcases = [], []
